@@ -50,6 +50,7 @@ let run (args : (string * string) list) : string =
   let pool = get_int args "pool" in
   let g = get_int args "g" in
   let seed = get_int args "seed" in
+  if get args "terminated" = "skipped" then " skipped=after-repeated-hangs" else
   let terminated = get_int args "terminated" = 1 in
   let status = get args "status" in
   let res = Buffer.create 128 in
